@@ -366,3 +366,62 @@ func tokenize(s string) []string {
 	}
 	return toks
 }
+
+// ValuesOfTerms evaluates arbitrary terms in the current model (after Sat).
+func (s *Solver) ValuesOfTerms(ts []*Term) []uint64 {
+	out := make([]uint64, len(ts))
+	if len(ts) == 0 {
+		return out
+	}
+	names := make([]string, len(ts))
+	for i, t := range ts {
+		names[i] = s.ref(t)
+	}
+	// evaluate one by one to keep the reply parser simple
+	for i, n := range names {
+		s.send("(get-value (" + n + "))")
+		var sb strings.Builder
+		depth, started := 0, false
+		for {
+			line := s.readLine()
+			if strings.HasPrefix(line, "(error") {
+				s.Errors = append(s.Errors, line)
+				return out
+			}
+			sb.WriteString(line + " ")
+			for _, c := range line {
+				if c == '(' {
+					depth++
+					started = true
+				} else if c == ')' {
+					depth--
+				}
+			}
+			if started && depth <= 0 {
+				break
+			}
+		}
+		toks := tokenize(sb.String())
+		// ((name value))
+		if len(toks) >= 5 {
+			tok := toks[3]
+			switch {
+			case tok == "true":
+				out[i] = 1
+			case tok == "false":
+				out[i] = 0
+			case strings.HasPrefix(tok, "#x"):
+				out[i], _ = strconv.ParseUint(tok[2:], 16, 64)
+			case strings.HasPrefix(tok, "#b"):
+				out[i], _ = strconv.ParseUint(tok[2:], 2, 64)
+			case tok == "(" && len(toks) > 5 && toks[4] == "-":
+				n, _ := strconv.ParseInt(toks[5], 10, 64)
+				out[i] = uint64(-n)
+			default:
+				n, _ := strconv.ParseInt(tok, 10, 64)
+				out[i] = uint64(n)
+			}
+		}
+	}
+	return out
+}
